@@ -166,7 +166,7 @@ def poetic_value(elems):
     for it in items:
         if it == '.':
             continue
-        acc = acc + float(it % 10) * powi(10.0, exponent - idx)
+        acc = acc + (0.0 if it % 10 == 0 else float(it % 10) * powi(10.0, exponent - idx))
         idx += 1
     return acc
 
@@ -659,7 +659,8 @@ class Speller:
     """Renders a tree as source text, choosing aliases, case, gaps, optional words."""
 
     def __init__(self, rng, noise=0.15, comments=0.05, recase=0.2, aliases=True,
-                 optional=True, symbols=True, eol_punct=0.15):
+                 optional=True, symbols=True, eol_punct=0.15, multiline_comments=False):
+        self.multiline_comments = multiline_comments
         self.rng = rng
         self.noise = noise
         self.comments = comments
@@ -924,11 +925,14 @@ class Speller:
         if need or rng.random() < 0.8:
             g = ' '
         if rng.random() < self.noise:
-            g += rng.choice([' ', '\t', '  ', ' ; ', ' ! ', ' ? ', ':', '\r'])
+            g += rng.choice([' ', '\t', '  ', ' ; ', ' ! ', ' ? ', ':', '\r', '\u00a0', '\u3000', '\x0b', '\x0c', '\u2003', '\u2028'])
             if not g.strip(' \t\r') and need and not g:
                 g = ' '
         if rng.random() < self.comments:
-            g += '(%s)' % rng.choice(['note', 'la la', 'x, y & z', 'it\'s 5', '', 'two\nlines'][:5]) + ' '
+            pool = ['note', 'la la', 'x, y & z', 'it\'s 5', '']
+            if self.multiline_comments:
+                pool += ['two\nlines', '\nheader\n', 'a\n\nb\n', '\n']
+            g += '(%s)' % rng.choice(pool) + ' '
         if need and not g:
             g = ' '
         # never let an apostrophe form attach: "'n'" needs to start a token
